@@ -397,6 +397,21 @@ class C05(Prop):
                         ops = [op_new("tpl", ".tw"), op_string("pg"), op_evalstr(page.replace("@component('~c', {a: 1})", "[C]").replace("@component('~c')", "[C]"))]
                         lines.append(tree_case("C05:t%d" % k, files, ops, ["ok:0", "eq:1:2", "nopanic"]))
                         k += 1
+        # a template read from a FILE is the file's bytes, first byte to last: a byte order mark or any other odd bytes
+        # at the start of a page or of a component file come out like everywhere else (same as EvaluateString on them)
+        LEADS = [b"\xef\xbb\xbf", b"\xef\xbb", b"\xfe\xff", b"\xff\xfe", b"\xef\xbb\xbf\xef\xbb\xbf", b"\r\n", b" \n", b"\x0b", b"\xc2\xa0",
+                 b"\xe2\x80\x8b", b"\t", b"\x01", b"#!tw\n"]
+        for j, lead in enumerate(LEADS):
+            for tailb in (b"<p>{{ 1 }}</p>\n", b"", b"x"):
+                content = lead + tailb
+                out = content.replace(b"{{ 1 }}", b"1")
+                files = [("tpl/pg.tw", "file", content), ("tpl/components/c.tw", "file", content),
+                         ("tpl/user.tw", "file", b"<div>@component('~c')</div>")]
+                ops = [op_new("tpl", ".tw"), op_string("pg"), op_evalstr(content), op_string("user"), op_evalfile("tpl/pg.tw")]
+                lines.append(tree_case("C05:f%d" % k, files, ops,
+                                       ["ok:0", "out:1:" + hx(out), "out:2:" + hx(out), "out:3:" + hx(b"<div>" + out + b"</div>"),
+                                        "out:4:" + hx(out), "nopanic"]))
+                k += 1
         # text directly before / after whole directive constructs, with the output known by construction
         CONS = [(b"@if(true)a@end", b"a"), (b"@if(false)a@else@end", b""), (b"@if(false)a@else(b)@end", b"(b)"),
                 (b"@each(i in [1])x@end", b"x"), (b"@if(true)@if(true)q@end@end", b"q"), (b"@each(i in [1, 2])@continue@end", b""),
@@ -853,8 +868,16 @@ class C10(Prop):
             for t in itertools.product(self.ALPHA, repeat=n):
                 contents.append("".join(t))
         contents += self.ENT
+        # bytes that are not valid UTF-8 where they stand (written with surrogate escapes: hx() turns them into the raw
+        # bytes) next to the characters that are escaped: every byte but < > & passes through unchanged
+        INV = ["\udce9", "\udcff", "\udc80", "\udce2\udc82", "\udcf0\udc9f", "caf\udce9", "\udcc3"]
+        for inv in INV:
+            for a in ["", "<", ">", "&", "<b>", "&amp;", "a"]:
+                for b in ["", "<", "&", "</b>", ";"]:
+                    contents.append(a + inv + b)
+                    contents.append(inv + a + inv + b)
         for _ in range({"quick": 2000, "thorough": 30000, "search": 6000}[tier]):
-            contents.append("".join(rng.choice(self.ALPHA + self.ENT) for _ in range(rng.choice([2, 4, 6, 10, 16]))))
+            contents.append("".join(rng.choice(self.ALPHA + self.ENT + (INV if rng.random() < 0.3 else [])) for _ in range(rng.choice([2, 4, 6, 10, 16]))))
         lines = []
         for i, c in enumerate(contents):
             dq = rng.choice(["0", "1"])
@@ -899,7 +922,7 @@ class C10(Prop):
                    op_evalstr("<c>{{ %s }}| {{ %s }} </c>" % (lit, lit)), op_string("page3")]
             lines.append(tree_case("C10:t%d" % tcount, files, ops, ["ok:0", "ok:1", "ok:2", "eq:1:2", "ok:3", "eq:3:4", "eq:5:2", "nopanic"]))
             tcount += 1
-        return lines, {"exhaustive": False, "distribution": distribution([c.encode() for c in contents]),
+        return lines, {"exhaustive": False, "distribution": distribution([c.encode("utf-8", "surrogateescape") for c in contents]),
                        "exhaustive_part": "all contents over 10 symbols up to length %d" % maxlen}
 
     def nontrivial(self, r):
@@ -932,12 +955,15 @@ CONDS = [
     # every non-zero float is truthy, however small: tiny data values, a tiny literal, an arithmetic residue, a denormal
     ("(var dtiny)", True), ("(var dntiny)", True), ("(var ddenorm)", True), ("(float 1 12)", True),
     ("(bin sub (bin add (float 1 1) (float 2 1)) (float 3 1))", True), ("(bin sub (float 5 1) (float 5 1))", False),
+    # not-a-number and the infinities are not zero: truthy (data-supplied; a template cannot write them)
+    ("(var dnan)", True), ("(var dinf)", True), ("(var dninf)", True),
 ]
 COND_DATA = {
     "dt": "(bool 1)", "df": "(bool 0)", "dz": "(int 0)", "dfz": "(f64 %s)" % f64bits(0.0), "de": "(str -)", "dn": "(nil)",
     "da": "(slice (int 1))", "dea": "(slice)", "dobj": "(map)", "ds": "(str %s)" % hx("x"), "di": "(int 3)",
     "dnegz": "(f64 %s)" % f64bits(-0.0), "dtiny": "(f64 %s)" % f64bits(1e-12), "dntiny": "(f64 %s)" % f64bits(-2.5e-10),
     "ddenorm": "(f64 %s)" % f64bits(5e-324),
+    "dnan": "(f64 %s)" % f64bits(float("nan")), "dinf": "(f64 %s)" % f64bits(float("inf")), "dninf": "(f64 %s)" % f64bits(float("-inf")),
     # floats at which adding one half is not exact
     "fhm": "(f64 %s)" % f64bits(0.49999999999999994), "fnhm": "(f64 %s)" % f64bits(-0.49999999999999994),
     "fo52": "(f64 %s)" % f64bits(4503599627370497.0), "fno52": "(f64 %s)" % f64bits(-4503599627370497.0),
@@ -1782,6 +1808,31 @@ class C13(Prop):
             files = [("tpl/%s.tw" % pg, "file", ppre + "@component('components/card')\n"), ("tpl/components/card.tw", "file", comp)]
             lines.append(tree_case("C13:n%d" % i, files, [op_new("tpl", ".tw")],
                                    ["line:0:%d" % ln, "path:0:" + hx("$ROOT/tpl/components/card.tw"), "msgsub:0:" + hx("badge"), "nopanic"]))
+        # a render fault written in the PAGE but evaluated while a component or a layout is being rendered - inside a slot
+        # body (named or default), inside an insert body, in an insert argument, in a component argument, after the
+        # use: the error names the page's file and the line in the page
+        RF = ["{{ nope }}", "{{ 1 / 0 }}", "{{ 1 + 'a' }}", "{{ n.nofn() }}", "@each(q in 5)x@end"]
+        k = 0
+        for rf in RF:
+            for pad in (0, 1, 3):
+                padding = "<h1>t</h1>\n" * pad
+                shapes = [
+                    (padding + "@component('~card')\n@slot('body')\n" + rf + "\n@end\n@end\n", pad + 3),
+                    (padding + "@component('~card')\n@slot\nok\n" + rf + "\n@end\n@end\n", pad + 4),
+                    (padding + "@component('~card')@slot('body')ok@end@end\n\n" + rf + "\n", pad + 3),
+                    (padding + "@each(i in [1, 2])\n@component('~card')\n@slot('body')\n@if(i == 2)\n" + rf + "\n@end\n@end\n@end\n@end\n", pad + 5),
+                    ("@use('~lay')\n" + padding + "@insert('main')\nok\n" + rf + "\n@end\n", pad + 4),
+                ]
+                if rf.startswith("{{"):
+                    ex = rf[2:-2].strip()
+                    shapes.append((padding + "@component('~card', {\n  a: 1,\n  b: " + ex + "\n})@slot('body')x@end@end\n", None))
+                    shapes.append(("@use('~lay')\n" + padding + "\n@insert('main', " + ex + ")\n", pad + 3))
+                for page, ln in shapes:
+                    files = [("tpl/page.tw", "file", page), ("tpl/components/card.tw", "file", "<div>@slot('body')</div>\n<p>@slot</p>\n"),
+                             ("tpl/layouts/lay.tw", "file", "<html>\n<body>\n\n@reserve('main')\n</body>\n")]
+                    cons = ["ok:0", "err:1", "path:1:" + hx("$ROOT/tpl/page.tw"), "nopanic"] + (["line:1:%d" % ln] if ln else [])
+                    lines.append(tree_case("C13:c%d" % k, files, [op_new("tpl", ".tw"), op_string("page", self.DATA)], cons))
+                    k += 1
         return lines, {"exhaustive": False, "distribution": {"cases": n, "fault_kinds": len(self.FAULTS) + 4}}
 
 
@@ -1870,6 +1921,18 @@ class C14(Prop):
             cons = ["eq:%d:%d" % (j, j + 1) for j in range(len(ops) - 1) if not (k in (6, 7) and j == 0)] + ["nopanic"]
             for p in range(procs):
                 lines.append(tree_case("C14:%d_p%d" % (i, p), files, ops, cons))
+        # several faulty component uses in one page (missing files, undeclared slots, in any mix): the load error is the
+        # one of the first use in the page, every time
+        pages = ["@component('~zz')\n@component('~aa')\n@component('~mm')",
+                 "@component('~b')@slot('q')x@end@end\n@component('~a')@slot('q')y@end@end",
+                 "x\n@component('~gone')\n@component('~b')@slot('q')x@end@end\n@component('~gone2')",
+                 "@if(true)@component('~k1')@end\n@each(i in [1])@component('~k0')@end\n@component('~k2')"]
+        for j, page in enumerate(pages):
+            files = [("tpl/pg.tw", "file", page), ("tpl/components/b.tw", "file", "B"), ("tpl/components/a.tw", "file", "A")]
+            ops = [op_new("tpl", ".tw")] * reps
+            cons = ["eq:%d:%d" % (q, q + 1) for q in range(len(ops) - 1)] + ["err:0", "nopanic"]
+            for p in range(procs):
+                lines.append(tree_case("C14:cf%d_p%d" % (j, p), files, ops, cons))
         return lines, {"exhaustive": False, "distribution": {"histories": n, "repetitions": reps, "fresh_processes": procs}}
 
     def post_check(self, results):
@@ -2361,6 +2424,31 @@ class C20(Prop):
         d = "((%s (str %s)))" % (hx("name"), hx("ann"))
         ops = ["(reg str %s const)" % hx("sh"), op_new("tpl", ".tw"), op_string("page", d), op_string("lp", d)]
         lines.append(tree_case("C20:f0", files, ops, ["nopanic", "ok:0", "ok:1", "out:2:" + hx("K|<b>K</b> K"), "out:3:" + hx("<t>K</t>KK")]))
+        # a function registered at ANY point of a Template's life is callable from its templates: before loading, after
+        # loading, after the first render, after a failing render, and from a second Template loaded in between
+        k = 0
+        for t, (tyname, lit, var, outs) in self.TYPES.items():
+            files = [("tpl/plain.tw", "file", "plain"), ("tpl/use.tw", "file", "{{ %s.late() }}|{{ %s.late() }}" % (lit, var)),
+                     ("tpl/bad.tw", "file", "{{ zz }}")]
+            want = "out:%%d:%s" % hx("%s|%s" % (outs["const"], outs["const"]))
+            reg = "(reg %s %s const)" % (t, hx("late"))
+            plans = [[reg, op_new("tpl", ".tw"), op_string("use", self.DATA)],
+                     [op_new("tpl", ".tw"), reg, op_string("use", self.DATA)],
+                     [op_new("tpl", ".tw"), op_string("plain", self.DATA), reg, op_string("use", self.DATA)],
+                     [op_new("tpl", ".tw"), op_string("bad", self.DATA), reg, op_string("use", self.DATA), op_string("plain", self.DATA), op_string("use", self.DATA)],
+                     [op_new("tpl", ".tw"), op_string("use", self.DATA), reg, op_string("use", self.DATA)],
+                     [op_new("tpl", ".tw"), op_string("plain", self.DATA), op_new("tpl", ".tw"), reg, op_string("use", self.DATA)]]
+            for ops in plans:
+                cons = ["nopanic"]
+                seen = False
+                for j, o in enumerate(ops):
+                    if o == reg:
+                        seen = True
+                        cons.append("ok:%d" % j)
+                    elif o.startswith("(string") and hx("use") in o:
+                        cons += ([want % j] if seen else ["err:%d" % j, "msgsub:%d:%s" % (j, hx("late"))])
+                lines.append(tree_case("C20:l%d" % k, files, ops, cons))
+                k += 1
         return lines, {"exhaustive": False, "distribution": {"registration_sequences": len(seqs), "conversion_cases": len(argsets)},
                        "exhaustive_part": "all registration sequences of length <= %d over %d (type, name, fn) triples" % (maxlen, len(regs))}
 
@@ -2676,6 +2764,18 @@ class C12(Prop):
                   [op_string("card", "((%s %s))" % (hx("author"), items[0][0]))]
             cons = ["ok:0", "nopanic"] + ["out:%d:%s" % (j + 1, hx("<b>%s</b>(%s)" % tuple(t[:-1].split(":")))) for j, (_, t) in enumerate(items + [items[0]])]
             lines.append(tree_case("C12:h%d" % idx, files, ops, cons))
+            idx += 1
+        # sharing is not a cycle: one pointer, slice or map reachable twice inside one value converts like two equal values
+        SH = [("(shared)", "{{ v[0] }}{{ v[1] }}{{ v[2].p }}", "555"),
+              ("(sharedptr)", "{{ v[0].author.name }}, {{ v[1].author.name }}|{{ v[1].title }}", "Ann, Ann|b"),
+              ("(sharedslice)", "{{ v.a[0] }}{{ v.b[1] }}{{ v.all[1][0] }}{{ v.all[0].len() }}", "xyx2"),
+              ("(sharedmap)", "{{ v.a.k }}{{ v.b.k }}{{ v.l[1].k }}", "111"),
+              ("(slice (sharedptr) (sharedptr))", "{{ v[1][0].author.name }}", "Ann"),
+              ("(map (%s (sharedmap)) (%s (sharedslice)))" % (hx("m"), hx("s")), "{{ v.m.b.k }}{{ v.s.b[0] }}", "1x")]
+        for dsx, src, out in SH:
+            data = "((%s %s) (%s %s))" % (hx("v"), dsx, hx("w"), dsx)
+            lines.append(tree_case("C12:s%d" % idx, [], [op_evalstr(src, data), op_evalstr(src.replace("v", "w").replace("{{ w.all[1][0] }}{{ w.all[0].len() }}", "{{ w.all[1][0] }}{{ w.all[0].len() }}"), data)],
+                                   ["out:0:" + hx(out), "nopanic"]))
             idx += 1
         return lines, {"exhaustive": False, "distribution": {"values": n, "path_cases": idx}}
 
